@@ -56,6 +56,14 @@ mut("c19_chan_write_blocking", "C19", "channel.go", "\t\tselect {\n\t\tcase <-ct
 mut("c20_end_error_dropped", "C20", "internal/util.go", "\t\tif appErr != nil && !errors.Is(appErr, io.EOF) {", "\t\tif appErr != nil && errors.Is(appErr, io.EOF) {")
 mut("c20_begin_twice", "C20", "internal/util.go", "\t\tsh.HandleRPC(ctx, statsBegin)\n", "\t\tsh.HandleRPC(ctx, statsBegin)\n\t\tsh.HandleRPC(ctx, statsBegin)\n")
 mut("c14_failed_open_no_teardown", "C14", "client.go", "\t\tteardown()\n\t\treturn nil, err", "\t\treturn nil, err")
+mut("c10_unary_worker_plain_handoff", "C10", "server.go", "\t\t\t\t\tselect {\n\t\t\t\t\tcase h.writeChan <- resp:\n\t\t\t\t\tcase <-h.ctx.Done():\n\t\t\t\t\t\t// the writer is gone: nobody will take the reply\n\t\t\t\t\t\treturn\n\t\t\t\t\t}\n", "\t\t\t\t\th.writeChan <- resp\n")
+mut("c10_unary_handler_under_serve_ctx", "C10", "server.go", "resp := h.processUnaryRpc(unaryClientCtx, args.info, args.md, args.rpc)", "resp := h.processUnaryRpc(context.WithoutCancel(unaryClientCtx), args.info, args.md, args.rpc)")
+mut("c10_unary_ctx_never_cancelled", "C10", "server.go", "\tdefer unaryClientCtxCancel()\n", "\t_ = unaryClientCtxCancel\n")
+mut("c14_stream_reader_ignores_stream_ctx", "C14,C07", "server.go", "\t\tcase <-ctx.Done():\n\t\t\treturn nil, ctx.Err()\n\t\t}\n\t}\n\twriterFunc", "\t\tcase <-h.ctx.Done():\n\t\t\treturn nil, h.ctx.Err()\n\t\t}\n\t}\n\twriterFunc")
+mut("c11_sendmsg_leaks_lock", "C11", "internal/server/stream.go", "\tss.protected.Lock()\n\tdefer ss.protected.Unlock()\n\n\tbody, err := ss.codec.Marshal(m)", "\tss.protected.Lock()\n\n\tbody, err := ss.codec.Marshal(m)")
+mut("c17_write_failure_without_connection", "C17", "proxy.go", "\t\t\t\tc.toServer <- command{id: c.id, client: c, err: err}\n\t\t\t\treturn errors.Wrap(err, \"failed to write to connection\")", "\t\t\t\tc.toServer <- command{id: c.id, err: err}\n\t\t\t\treturn errors.Wrap(err, \"failed to write to connection\")")
+mut("c02_client_drops_when_full", "C02", "internal/client/multiplexer.go", "\tch <- rpc\n}", "\tselect {\n\tcase ch <- rpc:\n\tdefault:\n\t}\n}")
+mut("c06_sendmsg_asks_for_reset", "C06", "internal/client/stream.go", "\tif err != nil {\n\t\tcs.teardown(false)\n\t\treturn err\n\t}\n\trpc := goatorepo.Rpc{", "\tif err != nil {\n\t\tcs.teardown(true)\n\t\treturn err\n\t}\n\trpc := goatorepo.Rpc{")
 mut("c10_serve_no_drain", "C10", "server.go", "\th.cancelAndWaitForStreams()\n", "")
 
 only = sys.argv[1] if len(sys.argv) > 1 else ""
